@@ -43,7 +43,8 @@ P["C01"] = dict(
 P["C05"] = dict(
     claimed=True,
     technique="static analysis: exact rational identities between the Krueger, rectifying and conformal series tables",
-    decides=["R-KEY-DECLARED: every key (and indexed accessor, e.g. ellps(1)) an operator or its constructor reads is declared by its gamut or stored by the constructor - the user's ellipsoid reaches the projection",
+    decides=["R-PARALLELS-SYMMETRIC: every branch condition of lcc::new on an arithmetic combination of both standard parallels is symmetric in them, and lat_0 defaults to lat_1 on the strength of |lat_1 - lat_2| < eps",
+             "R-KEY-DECLARED: every key (and indexed accessor, e.g. ellps(1)) an operator or its constructor reads is declared by its gamut or stored by the constructor - the user's ellipsoid reaches the projection",
              "R-LATTS-K0 (even): a southern lat_ts is not ignored",
              "R-K0-LINEAR: for merc, lcc, btmerc, butm the forward easting / northing are exactly offset + k_0 * G (G free of k_0, offset exactly x_0 / y_0), and in the inverse every arithmetic expression of the input depends on it only through (input - offset) / k_0 (exact rational-function identities)",
              "T-SERIES-CROSS: TM.fwd = RECT.fwd o CONF.inv and TM.inv = CONF.fwd o RECT.inv exactly to n^6 "
@@ -66,7 +67,8 @@ P["C06"] = dict(
     claimed=True,
     technique="static analysis: exact checks of the ellipsoid table (f64 grammar, uniqueness, golden a and 1/f), "
               "series reversion identities, meridian-arc coefficients = binom(1/2,k)^2",
-    decides=["R-TABLE-LOOKUP-EXACT: Ellipsoid::named and TriaxialEllipsoid::named look names up by equality",
+    decides=["R-RF-ZERO-CONVENTION: both ellipsoid constructors divide by a table rf only where rf != 0 is known",
+             "R-TABLE-LOOKUP-EXACT: Ellipsoid::named and TriaxialEllipsoid::named look names up by equality",
              "R-CURVATURE-MEANS: combined radii of curvature satisfy their defining identities in the two principal radii",
              "T-ELLPS: every row parses, is unique, equals the published a and 1/f; gamut defaults name rows",
              "T-SERIES: auxiliary-latitude series pairs are exact reversions to n^6",
@@ -88,7 +90,9 @@ P["C06"] = dict(
 P["C11"] = dict(
     claimed=True,
     technique="static analysis: exact checks of the unit and adaptor tables from HIR constants",
-    decides=["R-UNITCONVERT-WIRING (no partial by-pass): no return by-passes the per-tuple loop on the strength of one of the two factors alone",
+    decides=["R-NOOP-EXACT: adapt's noop value compares the multipliers exactly (no abs, tolerance or ordered comparison, also inside predicate closures)",
+             "R-AXISSWAP-SHORTCUT: axisswap by-passes its loop only on the absence of `order`, never on its length or content",
+             "R-UNITCONVERT-WIRING (no partial by-pass): no return by-passes the per-tuple loop on the strength of one of the two factors alone",
              "T-DESIGNATORS: e n u f w s d p map to +1 +2 +3 +4 -1 -2 -3 -4",
              "R-GUARD-MATCH-AGREE: adapt's designator guard accepts exactly the characters the designator match has arms for, and tests the value that is matched",
              "R-DEDUP-SORTED: adapt / axisswap / unitconvert de-duplicate no vector (Vec::dedup*) without a dominating sort of the same vector (duplicate-axis detection sees non-adjacent duplicates)",
@@ -133,7 +137,9 @@ P["C02"] = dict(
 P["C07"] = dict(
     claimed=True,
     technique="static analysis: loop-carried-state and element-preservation dataflow on the Helmert/Molodensky loops",
-    decides=["R-FLAG-COVERS: the decisions to set helmert's `dynamic` and `rotated` flags mention every stored quantity the apply function uses under that flag (DT, DR, DS; R, DR)",
+    decides=["R-ROT-SMALL-ANGLE: with exact = false the matrix of rotation_matrix satisfies M(-r) = M(r) transposed as a polynomial identity (both conventions)",
+             "R-MOLO-BOTH-ELLPS: molodensky stores the da / df derived from the two ellipsoids only where both ellps_0 and ellps_1 are known to have been given",
+             "R-FLAG-COVERS: the decisions to set helmert's `dynamic` and `rotated` flags mention every stored quantity the apply function uses under that flag (DT, DR, DS; R, DR)",
              "R-LOOP-CARRIED on helmert_common: parameters are evaluated at each tuple's own epoch",
              "R-ELEMENT-PRESERVE: helmert and molodensky never change the fourth coordinate",
              "R-ONCE: fixing t_obs advances T, R (per axis) and S (once) by their rates exactly once",
@@ -345,7 +351,8 @@ P["C13"] = dict(
     claimed=True,
     technique="static analysis: abstract interpretation of the value graph in a unit domain (deg/rad) and an additive "
               "polarity domain for the false origin; affine extraction of the UTM constants; sign-slice of aspect selection",
-    decides=["R-LATTS-K0 (even): the decision to derive k_0 from lat_ts does not depend on the sign of lat_ts",
+    decides=["R-PARALLELS-SYMMETRIC: every branch condition of lcc::new on an arithmetic combination of both standard parallels is symmetric in them, and lat_0 defaults to lat_1 on the strength of |lat_1 - lat_2| < eps",
+             "R-LATTS-K0 (even): the decision to derive k_0 from lat_ts does not depend on the sign of lat_ts",
              "R-K0-LINEAR: for merc, lcc, btmerc, butm the forward easting / northing are exactly offset + k_0 * G (G free of k_0, offset exactly x_0 / y_0), and in the inverse every arithmetic expression of the input depends on it only through (input - offset) / k_0 (exact rational-function identities)",
              "R-SIGN-CARRIER: the sign of a sexagesimal lon_0 / lat_0 / lat_ts is taken from the sign bit and the hemisphere letter on every returned value",
              "R-UNSIGNED-SUB: utm's zone arithmetic cannot underflow for zones 1..60",
@@ -417,7 +424,8 @@ P["C14"] = dict(
     claimed=True,
     technique="static analysis: wiring rules between sibling implementations (contexts, adapt/axisswap/unitconvert, "
               "operators vs their parameter declarations) and exact series identities between tables of different origin",
-    decides=["R-PROJ-PASSTHROUGH: Plain (which filters every definition through parse_proj) and Minimal see the same text for every Rust Geodesy definition",
+    decides=["R-RF-ZERO-CONVENTION: Ellipsoid::named and TriaxialEllipsoid::named treat the table's spheres alike",
+             "R-PROJ-PASSTHROUGH: Plain (which filters every definition through parse_proj) and Minimal see the same text for every Rust Geodesy definition",
              "R-TABLE-LOOKUP-EXACT: the biaxial and triaxial constructors use the same (equality) predicate over the ellipsoid table",
              "R-KEY-DECLARED (constructors, indexed accessors): a constructor does not read ellps(k), lat(k) ... for a key its gamut does not declare (it would always get the built-in default)",
              "R-K0-LINEAR: for merc, lcc, btmerc, butm the forward easting / northing are exactly offset + k_0 * G (G free of k_0, offset exactly x_0 / y_0), and in the inverse every arithmetic expression of the input depends on it only through (input - offset) / k_0 (exact rational-function identities)",
